@@ -157,11 +157,13 @@ def removeEdgesRun : List Int → Out
   | [] => .accept
   | c :: cs => if faceCornerBad c then .reject "FaceCreationError" else removeEdgesRun cs
 
+/-- number of slices of a stack along an axis: columns, rows of the sketch's grid, shapes -/
+def slicesAlong (axis : Int) (n0 n1 n2 : Nat) : Int :=
+  if axis = 0 then (n0 : Int) else if axis = 1 then (n1 : Int) else (n2 : Int)
+
 /-- The guards as coded (after the repairs), `tol` = `constants.TOL`. -/
 def run (tol : Rat) : Call → Out
-  | .faceShape n m =>
-      -- `np.shape([]) = (0,)`: building the error message indexes `points_shape[1]`
-      checks [(n == 0, "IndexError"), (!(n == 4 && m == 3), "FaceCreationError")]
+  | .faceShape n m => checks [(!(n == 4 && m == 3), "FaceCreationError")]
   | .faceEdges k => checks [(k != 4, "FaceCreationError")]
   | .faceCoplanar p0 p1 p2 p3 => checks [(decide (absR (triple p0 p1 p2 p3) > tol), "FaceCreationError")]
   | .faceAddEdge c => checks [(faceCornerBad c, "FaceCreationError")]
@@ -169,7 +171,8 @@ def run (tol : Rat) : Call → Out
   | .faceRemoveEdges cs => removeEdgesRun cs
   | .pointShape dims => checks [(dims != [3], "PointCreationError")]
   | .arrayShape n m =>
-      checks [(n == 0, "IndexError"), (m != 3, "ArrayCreationError"), (decide (n ≤ 1), "ArrayCreationError")]
+      -- `np.shape([]) = (0,)`: `len(shape) != 2`
+      checks [(n == 0 || m != 3, "ArrayCreationError"), (decide (n ≤ 1), "ArrayCreationError")]
   | .sideVertices k => checks [(k != 8, "SideCreationError")]
   | .opAddSideEdge c => checks [(decide (c < 0) || decide (c > 3), "EdgeCreationError")]
   | .opProjectCorner c => checks [(decide (c < 0) || decide (c > 7), "ValueError")]
@@ -219,11 +222,9 @@ def run (tol : Rat) : Call → Out
   | .loftedShape n1 n2 mids =>
       checks [(n1 != n2, "ShapeCreationError"), (mids.any (· != n1), "ShapeCreationError")]
   | .stackSlice axis idx n0 n1 n2 =>
+      -- `n_slices = (len(grid[0]), len(grid), len(self.shapes))[axis]`; `index < 0 or index >= n_slices`
       checks [(!(axis == 0 || axis == 1 || axis == 2), "ValueError"),
-              (decide (idx < 0), "ValueError"),
-              (axis == 2 && decide ((n2 : Int) ≤ idx), "IndexError"),
-              (axis == 0 && decide (0 < n2) && decide (0 < n1) && decide ((n0 : Int) ≤ idx), "IndexError"),
-              (axis == 1 && decide (0 < n2) && decide ((n1 : Int) ≤ idx), "IndexError")]
+              (decide (idx < 0) || decide (slicesAlong axis n0 n1 n2 ≤ idx), "ValueError")]
   | .curveParam p lo hi => checks [(!(decide (lo ≤ p) && decide (p ≤ hi)), "ValueError")]
   | .polylineShape dims =>
       match dims with
@@ -626,7 +627,7 @@ def G_pointShape : List Stmt := [
 
 def G_arrayShape : List Stmt := [
     .s (.mutate "self.points"),
-    .s (.raise "ArrayCreationError" (.cmp .ne (.dim "points" 1) (.int 3))),
+    .s (.raise "ArrayCreationError" (.or (.cmp .ne (.len "np.shape(points)") (.int 2)) (.cmp .ne (.dim "points" 1) (.int 3)))),
     .s (.raise "ArrayCreationError" (.cmp .le (.dim "points" 0) (.int 1)))]
 
 def G_sideVertices : List Stmt := [
@@ -709,7 +710,7 @@ def G_loftedShape : List Stmt := [
 
 def G_stackSlice : List Stmt := [
     .s (.raise "ValueError" (.not (.iin (.var "axis") [0, 1, 2]))),
-    .s (.raise "ValueError" (.cmp .lt (.var "index") (.int 0)))]
+    .s (.raise "ValueError" (.or (.cmp .lt (.var "index") (.int 0)) (.cmp .ge (.var "index") (.var "number of slices along axis"))))]
 
 def G_curveParam : List Stmt := [
     .s (.raise "ValueError" (.not (.and (.cmp .le (.var "self.bounds[0]") (.var "param")) (.cmp .le (.var "param") (.var "self.bounds[1]")))))]
@@ -877,7 +878,8 @@ def envOf (tol : Rat) (rt : Rat → Rat) : Call → Env
   | .faceProjectEdge c => { tol, rt, rat := nm "corner" c }
   | .faceRemoveEdges cs => { tol, rt, ints := fun _ => cs }
   | .pointShape dims => { tol, rt, shape := fun _ => dims }
-  | .arrayShape n m => { tol, rt, shape := fun _ => if n == 0 then [0] else [n, m] }
+  | .arrayShape n m =>
+      { tol, rt, shape := fun _ => if n == 0 then [0] else [n, m], len := fun _ => if n == 0 then 1 else 2 }
   | .sideVertices k => { tol, rt, len := fun _ => k }
   | .opAddSideEdge c => { tol, rt, rat := nm "corner_idx" c }
   | .opProjectCorner c => { tol, rt, rat := nm "corner" c }
@@ -906,7 +908,9 @@ def envOf (tol : Rat) (rt : Rat → Rat) : Call → Env
   | .loftedShape n1 n2 mids =>
       { tol, rt, rat := nm2 "len(sketch_1.faces)" n1 "len(sketch_2.faces)" n2,
         flag := fun n => if n == "sketch_mid is not None" then !mids.isEmpty else mids.any (· != n1) }
-  | .stackSlice axis idx _ _ _ => { tol, rt, rat := nm2 "axis" axis "index" idx }
+  | .stackSlice axis idx n0 n1 n2 =>
+      { tol, rt, rat := fun n => if n == "axis" then (axis : Rat) else if n == "index" then (idx : Rat)
+                                 else ((slicesAlong axis n0 n1 n2 : Int) : Rat) }
   | .curveParam p lo hi =>
       { tol, rt, rat := fun n => if n == "param" then p else if n == "self.bounds[0]" then lo else hi }
   | .polylineShape dims => { tol, rt, shape := fun _ => pyShape dims, len := fun _ => (pyShape dims).length }
